@@ -88,14 +88,36 @@ def changed_declarations():
     return ["%s: %s" % (f, d) for f, d in names]
 
 
-def restore_baseline():
+def restore_baseline(only=None):
     """second way of the tie: the facts recorded from the last reviewed tree (extract/baseline) take the place
-    of the freshly regenerated ones; returns False when there is no baseline"""
+    of the freshly regenerated ones (all of them, or only the files named); returns False when there is no
+    baseline"""
     names = [n for n in GEN_FILES if os.path.exists(os.path.join(BASELINE, n))]
     if len(names) != len(GEN_FILES):
         return False
-    for n in names:
+    for n in (only or names):
         shutil.copy(os.path.join(BASELINE, n), os.path.join(LEAN, "Knx", "Gen", n))
+    return True
+
+
+# obligations that only say "the translator could follow the source": when nothing but these (or the
+# regenerated files themselves, or the source fingerprints) break, the semantic theorems were never
+# contradicted by the code as it is
+FOLLOWABILITY = ("shapes_recognised", "every_type_has_a_modelled_shape", "model_reviewed_against_source")
+
+
+def only_followability(items):
+    """items: entries of broken_theorems (`path:line name - msg`)"""
+    for it in items:
+        m = re.match(r"(\S+?):\d+ (\S+)", it)
+        if not m:
+            if it.startswith("lake build") or it.startswith("[gendrv]"):
+                continue
+            return False
+        path, name = m.group(1), m.group(2)
+        if path.startswith("Knx/Gen/") or path.startswith("Driver/") or name in FOLLOWABILITY:
+            continue
+        return False
     return True
 
 
